@@ -163,10 +163,9 @@ Lemma round_spec : forall x, 0 < den x ->
 Proof.
   intros [n d] H. unfold round, divmodI. cbn [num den fst snd] in *. rewrite absI_abs.
   set (a := Z.abs n). assert (Ha : 0 <= a) by apply Z.abs_nonneg.
-  rewrite Z.quot_div_nonneg, Z.rem_mod_nonneg by lia.
+  destruct (Z.gtb_spec d 0); [|lia].
   assert (A := Z.div_mod a d ltac:(lia)). assert (B := Z.mod_pos_bound a d H).
   set (q := a / d) in *. set (r := a mod d) in *.
-  destruct (Z.ltb_spec r 0); [lia|].
   rewrite Z.shiftl_mul_pow2 by lia. change (2 ^ 1) with 2.
   destruct (cmpabsI_spec (r * 2) d) as (C1 & C2 & C3).
   rewrite (Z.abs_eq (r * 2)), (Z.abs_eq d) in * by lia.
